@@ -47,7 +47,7 @@ def st_rstart(draw):
 
 @st.composite
 def st_rop(draw, extra=()):
-    o = draw(st.sampled_from(['append', 'append', 'iterappend', 'trunc', 'trunc', 'mode', 'reopen', 'read'] + list(extra)))
+    o = draw(st.sampled_from(['append', 'append', 'iterappend', 'trunc', 'trunc', 'mode', 'reopen', 'read', 'ctx'] + list(extra)))
     if o == 'append':
         return {'o': 'append', 'item': draw(st_item())}
     if o == 'iterappend':
@@ -63,6 +63,11 @@ def st_rop(draw, extra=()):
         b = st.one_of(st.none(), st.integers(-4, 12))
         return {'o': 'read', 'triples': [[draw(st.integers(-3, 10)), draw(b), draw(st.sampled_from([1, 1, 2, 3, -1, 0]))]
                                           for _ in range(draw(st.integers(1, 3)))]}
+    if o == 'ctx':
+        inner = [draw(st.one_of(st.builds(lambda it: {'o': 'append', 'item': it}, st_item()),
+                                st.builds(lambda its: {'o': 'iterappend', 'items': its, 'gen': False}, st.lists(st_item(), max_size=2))))
+                 for _ in range(draw(st.integers(1, 3)))]
+        return {'o': 'ctx', 'ops': inner, 'via': draw(st.sampled_from(['open_arrays', 'iter_arrays']))}
     if o == 'meta':
         return {'o': 'meta', 'a': draw(st.sampled_from(['set', 'set', 'del', 'clear'])), 'k': draw(st.sampled_from(['a', 'b']))}
     if o == 'overwrite':
@@ -164,7 +169,8 @@ class RaggedRun:
         out, m = self.out, self.m
         n = len(m)
         if 'model' in self.oracles:
-            handles = [('live', self.ra)]
+            # while an enclosing context holds the (fixed-shape) memory maps open, only a fresh handle can see new data
+            handles = [] if getattr(self, 'in_ctx', False) else [('live', self.ra)]
             try:
                 handles.append(('fresh', darr.RaggedArray(self.path)))
             except Exception as e:
@@ -429,6 +435,29 @@ class RaggedRun:
                     self.out.viol('iter_arrays-mismatch', 'iter_arrays', f'iter_arrays({s},{e},{stp}) on length {n}: {len(got)} items, model {len(want)}')
                     return False
             return True
+        if o == 'ctx':
+            # mutating operations issued while the arrays are held open by an enclosing context / a running iterator
+            if self.mode == 'r':
+                return True
+            self.out.cls('ops-inside-open-context')
+            ok = True
+            self.in_ctx = True
+            if op['via'] == 'open_arrays' or not m:
+                with ra.open_arrays():
+                    for inner in op['ops']:
+                        ok = ok and self.step(inner)
+                        if not ok:
+                            break
+            else:
+                it = ra.iter_arrays()
+                next(it)
+                for inner in op['ops']:
+                    ok = ok and self.step(inner)
+                    if not ok:
+                        break
+                it.close()
+            self.in_ctx = False
+            return ok and self.observe('after-ctx', full=False)
         if o == 'meta':
             self.kinds.append('meta')
             if self.mode == 'r':
